@@ -17,3 +17,12 @@ open RV.C16
 #print axioms gen_yields_prefix
 #print axioms gen_yields_all_when_dry
 #print axioms interleaved_iterators_share_rows
+#print axioms json_text_roundtrip
+#print axioms json_py_text_roundtrip
+#print axioms csv_text_roundtrip
+#print axioms csv_text_preserves
+#print axioms xml_chardata_roundtrip
+#print axioms xml_attr_roundtrip
+#print axioms xml_chardata_witness
+#print axioms xml_chardata_raw_cr
+#print axioms xml_chardata_any_encoding
